@@ -16,6 +16,7 @@ from jax.numpy import (
 )
 from jax.numpy import sum as arraysum
 from jax.numpy import any as arrayany
+from numpy import ndarray as numpy_ndarray
 from jax import random
 from sklearn.cluster import k_means
 from sklearn.linear_model import Ridge
@@ -920,7 +921,7 @@ def compute_average_cell_count(x, normalize):
     if isinstance(normalize, dict):
         return sum(normalize.values()) / n_unique_times
 
-    if isinstance(normalize, (list, ndarray)):
+    if isinstance(normalize, (list, ndarray, numpy_ndarray)):
         return arraysum(asarray(normalize)) / len(normalize)
 
     raise ValueError(f"Unrecognized type for 'normalize': {type(normalize)}")
